@@ -8,3 +8,14 @@ static inline void *verif_memcpy4(void *d, const void *s, size_t n) {
   __CPROVER_assert(n == 4, "model: memcpy is modelled for the 4-byte length prefix");
   ((char *)d)[0] = ((const char *)s)[0]; ((char *)d)[1] = ((const char *)s)[1]; ((char *)d)[2] = ((const char *)s)[2]; ((char *)d)[3] = ((const char *)s)[3];
   return d; }
+/* a std::string being built: what was appended, where (one string is built per constructor) */
+char g_built_marker; unsigned g_pieces; char g_piece_char; size_t g_piece_char_pos, g_piece_len, g_piece_pos; const char *g_piece_ptr;
+size_t nondet_cstr_len(void);
+static inline keyt keyt_new(void) { keyt k; k.ptr = &g_built_marker; k.len = 0; return k; }
+static inline void keyt_reserve(keyt *k, size_t n) { }
+static inline void keyt_push_back(keyt *k, char c) { g_pieces++; g_piece_char = c; g_piece_char_pos = k->len; k->len = k->len + 1; }
+static inline keyt *keyt_append(keyt *k, const char *b, const char *e) { g_pieces++; g_piece_ptr = b; g_piece_len = (size_t)(e - b); g_piece_pos = k->len; k->len = k->len + (size_t)(e - b); return k; }
+static inline keyt *keyt_assign(keyt *dst, const keyt *src) { *dst = *src; return dst; }
+/* std::string(const char *): the length is wherever the first NUL byte is -- arbitrary as far as a key with binary content is concerned */
+static inline keyt keyt_cstr_any(const char *p) { keyt k; k.ptr = p; k.len = nondet_cstr_len(); return k; }
+static inline keyt keyt_copy(const keyt *src) { return *src; }
